@@ -8,7 +8,9 @@ import (
 	"fmt"
 	"os"
 	"path/filepath"
+	"sync"
 	"testing"
+	"time"
 
 	"github.com/hashicorp/raft"
 	raftboltdb1 "github.com/hashicorp/raft-boltdb"
@@ -34,8 +36,9 @@ type CopyCase struct {
 	First      uint64          `json:"first"`
 	Entries    []kit.EntrySpec `json:"e"`
 	BatchBytes int             `json:"bb"`
-	Progress   string          `json:"prog"`   // nil, buffered, unbuffered
-	CancelAt   int             `json:"cancel"` // 0 = none; k = cancel during k-th GetLog
+	Progress   string          `json:"prog"`               // nil, buffered, unbuffered
+	CancelAt   int             `json:"cancel"`             // 0 = none; k = cancel during k-th GetLog
+	Deadline   bool            `json:"deadline,omitempty"` // the context ends by deadline (DeadlineExceeded) instead of cancel()
 	SegSize    int             `json:"seg"`
 	SrcErr     string          `json:"srcerr,omitempty"` // "", first, last, get: the source fails that call
 	DstErrAt   int             `json:"dsterr,omitempty"` // k>0: the destination's k-th StoreLogs fails
@@ -76,6 +79,7 @@ func genCopyCase(t *rapid.T) CopyCase {
 	c.Progress = rapid.SampledFrom([]string{"nil", "buffered", "unbuffered"}).Draw(t, "prog")
 	if n > 0 && rapid.IntRange(0, 3).Draw(t, "docancel") == 0 {
 		c.CancelAt = rapid.IntRange(1, n).Draw(t, "cancelAt")
+		c.Deadline = rapid.Bool().Draw(t, "deadline")
 	}
 	c.SegSize = rapid.SampledFrom([]int{128, 4096, 1 << 20}).Draw(t, "seg")
 	if c.CancelAt == 0 {
@@ -163,6 +167,30 @@ type cancelSrc struct {
 }
 
 var errInjected = errors.New("verif: injected store error")
+
+// deadlineCtx ends with context.DeadlineExceeded when the harness says so.
+type deadlineCtx struct {
+	context.Context
+	mu   sync.Mutex
+	done chan struct{}
+	err  error
+}
+
+func (d *deadlineCtx) expire() {
+	d.mu.Lock()
+	if d.err == nil {
+		d.err = context.DeadlineExceeded
+		close(d.done)
+	}
+	d.mu.Unlock()
+}
+func (d *deadlineCtx) Done() <-chan struct{} { return d.done }
+func (d *deadlineCtx) Err() error {
+	d.mu.Lock()
+	defer d.mu.Unlock()
+	return d.err
+}
+func (d *deadlineCtx) Deadline() (time.Time, bool) { return time.Unix(1, 0), true }
 
 // failSrc fails one kind of call of the source store.
 type failSrc struct {
@@ -277,6 +305,13 @@ func runCopy(c CopyCase) (res common.Result) {
 
 	ctx, cancel := context.WithCancel(context.Background())
 	defer cancel()
+	wantCtxErr := context.Canceled
+	if c.Deadline {
+		// a context that ends by deadline: driven by the harness, not by the clock
+		dc := &deadlineCtx{Context: context.Background(), done: make(chan struct{})}
+		ctx, cancel = dc, dc.expire
+		wantCtxErr = context.DeadlineExceeded
+	}
 	var from raft.LogStore = src
 	if c.CancelAt > 0 {
 		from = &cancelSrc{LogStore: src, k: c.CancelAt, cancel: cancel}
@@ -363,11 +398,11 @@ func runCopy(c CopyCase) (res common.Result) {
 			return
 		}
 	} else {
-		if cancelled && !errors.Is(cerr, context.Canceled) {
-			res.Fail = common.Failf("cancel-wrong-err", "context cancelled during GetLog #%d of %d but CopyLogs returned %v", c.CancelAt, n, cerr)
+		if cancelled && !errors.Is(cerr, wantCtxErr) {
+			res.Fail = common.Failf("cancel-wrong-err", "context ended (%v) during GetLog #%d of %d but CopyLogs returned %v", wantCtxErr, c.CancelAt, n, cerr)
 			return
 		}
-		if cerr != nil && !errors.Is(cerr, context.Canceled) {
+		if cerr != nil && !errors.Is(cerr, wantCtxErr) {
 			res.Fail = common.Failf("cancel-wrong-err", "CopyLogs returned %v", cerr)
 			return
 		}
@@ -405,6 +440,9 @@ func runCopy(c CopyCase) (res common.Result) {
 	}
 	if c.CancelAt > 0 && c.CancelAt < n {
 		res.Classes = append(res.Classes, "cancel-inside")
+		if c.Deadline {
+			res.Classes = append(res.Classes, "deadline-inside")
+		}
 		res.NonTrivial = true
 	}
 	if n >= 2 && c.CancelAt == 0 {
@@ -444,6 +482,8 @@ type StableCase struct {
 	ExtraKey []string          `json:"xk"`
 	Cancel   bool              `json:"cancel"`
 	Progress string            `json:"prog"`
+	// DstStale: the destination already holds other (non-zero) values for every listed key
+	DstStale bool `json:"dstStale,omitempty"`
 }
 
 func genStableCase(t *rapid.T) StableCase {
@@ -474,6 +514,7 @@ func genStableCase(t *rapid.T) StableCase {
 	}
 	c.Cancel = rapid.IntRange(0, 5).Draw(t, "cancel") == 0
 	c.Progress = rapid.SampledFrom([]string{"nil", "unbuffered"}).Draw(t, "prog")
+	c.DstStale = rapid.IntRange(0, 3).Draw(t, "dstStale") == 0
 	return c
 }
 
@@ -538,6 +579,20 @@ func runStable(c StableCase) (res common.Result) {
 			return
 		}
 	}
+	if c.DstStale {
+		for _, k := range append([]string{"CurrentTerm", "LastVoteTerm"}, c.ExtraInt...) {
+			if err := dst.SetUint64([]byte(k), 0xdead0000+uint64(len(k))); err != nil {
+				res.Fail = common.Failf("harness", "pre-populate destination: %v", err)
+				return
+			}
+		}
+		for _, k := range append([]string{"LastVoteCand"}, c.ExtraKey...) {
+			if err := dst.Set([]byte(k), []byte("stale-"+k)); err != nil {
+				res.Fail = common.Failf("harness", "pre-populate destination: %v", err)
+				return
+			}
+		}
+	}
 	ctx, cancel := context.WithCancel(context.Background())
 	defer cancel()
 	if c.Cancel {
@@ -595,11 +650,19 @@ func runStable(c StableCase) (res common.Result) {
 		return v
 	}
 	for _, k := range append([]string{"CurrentTerm", "LastVoteTerm"}, c.ExtraInt...) {
-		a, _ := src.GetUint64([]byte(k))
-		b, _ := dst.GetUint64([]byte(k))
+		a, aerr := src.GetUint64([]byte(k))
+		b, berr := dst.GetUint64([]byte(k))
 		if a != b {
 			res.Fail = common.Failf("stable-int-differs", "int key %q: source %d destination %d (%s -> %s)", k, a, b, c.Src, c.DstKind)
 			return
+		}
+		if aerr == nil && berr != nil {
+			// CopyStable read this key from the source without an error (value %d), so it must be there afterwards
+			res.Fail = common.Failf("stable-int-missing", "int key %q: the source answers %d, the destination %v after CopyStable returned nil (%s -> %s)", k, a, berr, c.Src, c.DstKind)
+			return
+		}
+		if a == 0 && aerr == nil {
+			res.Classes = append(res.Classes, "zero-valued-key")
 		}
 	}
 	for _, k := range append([]string{"LastVoteCand"}, c.ExtraKey...) {
@@ -611,6 +674,9 @@ func runStable(c StableCase) (res common.Result) {
 	}
 	res.NonTrivial = len(c.Ints)+len(c.Bytes) > 0
 	res.Classes = append(res.Classes, "stable-copied", "pair:"+c.Src+">"+c.DstKind)
+	if c.DstStale {
+		res.Classes = append(res.Classes, "destination-held-stale-values")
+	}
 	if len(c.ExtraInt)+len(c.ExtraKey) > 0 {
 		res.Classes = append(res.Classes, "extra-keys")
 	}
